@@ -31,13 +31,13 @@ def recipes(c, nd, r):
     return [['knot', 'mid', 'knot'][:nd], ['mid', 'knot', 'mid'][:nd]]
 
 
-def build_world(root, cube, K, ulo, uhi, nd, c, fmt, memmap, r, distance_unit='kpc', theta=None, rc=None):
+def build_world(root, cube, K, ulo, uhi, nd, c, fmt, memmap, r, distance_unit='kpc', theta=None, rc=None, d0=None, remove_resolved=False):
     from astropy import units as u
     from sedfitter.convolved_fluxes import ConvolvedFluxes
     d = tempfile.mkdtemp(dir=root)
     nm = len(cube)
     names = NAMES[:nm] if nm <= 3 else ['m_%s' % ch for ch in 'hcafbdge'[:nm]]
-    dist = [D0 * r ** i for i in range(nd)]
+    dist = [(d0 or D0) * r ** i for i in range(nd)]
     theta = theta or THETA
     nbands = len(theta)
     rc = rc or recipes(c, nd, r)
@@ -74,7 +74,7 @@ def build_world(root, cube, K, ulo, uhi, nd, c, fmt, memmap, r, distance_unit='k
         pw.cube_object(names, [1.0, 2.0], [100.0, 200.0], lambda m, a, w: 1.0 + m + a + w, lambda m, a, w: 0.1, 'desc').write(os.path.join(d, 'flux.fits'))
     law = fw.make_extinction(K, wavs)
     ft = fw.make_fitter(d, ['f%d' % j for j in range(nbands)], law, ulo, uhi, distance_range=[dist[0], dist[-1]], apertures=theta, use_memmap=memmap,
-                        distance_unit=distance_unit)
+                        distance_unit=distance_unit, remove_resolved=remove_resolved)
     return d, ft, dist, names
 
 
